@@ -90,6 +90,29 @@ class TfyIter(Tfy):
         return iter(["iterated-item-1", "iterated-item-2"])
 
 
+class FlakyError(Exception):
+    """raised by user code (a tagify() that fails the first time it is asked)"""
+
+
+FLAKY_SEEN: set = set()
+
+
+class TfyFlaky(Tfy):
+    """tagify() fails the first time the component described by this recipe node is asked (a data source that was
+    not ready yet), and works from then on.  State is kept per recipe node (key), not per object, so that objects
+    rebuilt from the same recipe inside other expansions do not fail again."""
+
+    def __init__(self, res: Any, key: int) -> None:
+        super().__init__(res)
+        self.key = key
+
+    def tagify(self):
+        if self.key not in FLAKY_SEEN:
+            FLAKY_SEEN.add(self.key)
+            raise FlakyError("not ready yet")
+        return super().tagify()
+
+
 class TfyRepr(Tfy):
     """Tagifiable *and* self-rendering."""
 
@@ -109,6 +132,15 @@ def build_dep(r: dict):
     for key in ("source", "script", "stylesheet", "meta"):
         if r.get(key) is not None:
             kw[key] = _deepcopy_json(r[key])
+    src = kw.get("source")
+    if isinstance(src, dict) and isinstance(src.get("subdir"), str) and src["subdir"].startswith("@"):
+        # a directory of the installed package addressed without a package name: "@rel:<sub>" relative to the
+        # current directory, "@abs:<sub>" absolute but not in canonical form
+        import os
+
+        mode, sub = src["subdir"][1:].split(":", 1)
+        full = os.path.join(os.path.dirname(h.__file__), sub)
+        src["subdir"] = os.path.relpath(full) if mode == "rel" else os.path.join(full, ".", "")
     if r.get("all_files"):
         kw["all_files"] = True
     head = r.get("head")
@@ -169,6 +201,13 @@ def _build(r: Any, memo: Any = None):
             return TfyStr(r["res"])
         if v == "iter":
             return TfyIter(r["res"], bool(r.get("raw")))
+        if v == "flaky":
+            return TfyFlaky(r["res"], id(r))
+        if v == "flex":
+            # an object of the plain self-rendering class Repr that *also* got a tagify() (set on the instance)
+            o = Repr("<u>flex-not-expanded</u>")
+            o.tagify = Tfy(r["res"]).tagify
+            return o
         cls = TfyRepr if r.get("repr") else Tfy
         return cls(r["res"], bool(r.get("raw")))
     if k == "list":
